@@ -4,7 +4,7 @@
 # The directory of the demonstration is taken from its package clause.
 cd "$(dirname "$0")/.."
 one() {
-  declare -A REL=( [C01]="C06 C19" [C02]="C05 C16 C01" [C03]="C14" [C04]="C12 C07 C03" [C05]="C02 C01 C19 C10 C15" [C06]="C01 C15 C19" [C07]="C09 C04 C08" [C08]="C09 C12 C19" [C09]="C08 C10 C19" [C10]="C13 C19 C03" [C11]="C04 C12" [C12]="C10" [C13]="C10 C06" [C14]="C03 C15 C19" [C15]="C14" [C16]="C04 C17 C02" [C17]="C16 C14 C18 C05 C02" [C18]="C17" [C19]="" [C20]="C16 C14" )
+  declare -A REL=( [C01]="C06 C19" [C02]="C05 C16 C01" [C03]="C14" [C04]="C12 C07 C03" [C05]="C02 C01 C19 C10 C15" [C06]="C01 C15 C19" [C07]="C09 C04 C08" [C08]="C09 C12 C19" [C09]="C08 C10 C19" [C10]="C13 C19 C03" [C11]="C04 C12" [C12]="C10 C05" [C13]="C10 C06" [C14]="C03 C15 C19" [C15]="C14" [C16]="C04 C17 C02" [C17]="C16 C14 C18 C05 C02" [C18]="C17" [C19]="" [C20]="C16 C14" )
   d=$1; id=$(basename "$d" | sed 's/^seed-//'); p=${id%%-*}
   [ -f "$d/_out/meta.json" ] || { echo "== $id: no meta.json yet"; return; }
   pk=$(grep -h -m1 "^package" "$d"/_out/*_test.go | awk '{print $2}'); pk=${pk%_test}
